@@ -59,6 +59,16 @@ class HTTP(BaseComponent):
         # connections that are being closed: what still arrives is ignored
         self._closing = set()
 
+    def _mark_closing(self, sock):
+        # a connection that is gone already (its disconnect has been
+        # handled, the socket is closed) needs no remembering
+        try:
+            if sock.fileno() < 0:
+                return
+        except Exception:
+            return
+        self._closing.add(sock)
+
     @property
     def version(self):
         return SERVER_VERSION
@@ -153,7 +163,7 @@ class HTTP(BaseComponent):
         # send HTTP response status line and headers
         res.prepare()
         if res.close:
-            self._closing.add(sock)
+            self._mark_closing(sock)
         self.fire(write(sock, b'%s%s' % (bytes(res), bytes(headers))))
 
         if req.method == 'HEAD':
@@ -241,7 +251,7 @@ class HTTP(BaseComponent):
                     del self._buffers[sock]
                 if sock in self._clients:
                     del self._clients[sock]
-                self._closing.add(sock)
+                self._mark_closing(sock)
                 return self.fire(close(sock))
 
         _scheme = 'https' if self._server.secure else 'http'
@@ -263,7 +273,7 @@ class HTTP(BaseComponent):
                 req.server = self._server
                 res = wrappers.Response(req, encoding=self._encoding)
                 del self._buffers[sock]
-                self._closing.add(sock)
+                self._mark_closing(sock)
                 return self.fire(httperror(req, res, 400))
             return None
 
@@ -298,7 +308,7 @@ class HTTP(BaseComponent):
                 # the major HTTP version differs: answer in our own version,
                 # so that the headers (Connection: close) mean what they say
                 res.protocol = 'HTTP/{:d}.{:d}'.format(*sp)
-                self._closing.add(sock)
+                self._mark_closing(sock)
                 return self.fire(httperror(req, res, 505))
 
             res.protocol = 'HTTP/{:d}.{:d}'.format(*min(rp, sp))
@@ -307,7 +317,7 @@ class HTTP(BaseComponent):
         clen = int(req.headers.get('Content-Length', '0'))
         if clen < 0:
             del self._buffers[sock]
-            self._closing.add(sock)
+            self._mark_closing(sock)
             return self.fire(httperror(req, res, 400, description='Invalid Content-Length'))
         if (clen or req.headers.get('Transfer-Encoding') == 'chunked') and not parser.is_message_complete():
             return None
@@ -320,14 +330,14 @@ class HTTP(BaseComponent):
 
         if req.protocol != (1, 0) and not req.headers.get('Host'):
             del self._buffers[sock]
-            self._closing.add(sock)
+            self._mark_closing(sock)
             return self.fire(httperror(req, res, 400, description='No host header defined'))
 
         # Guard against unwanted request paths (SECURITY).
         path = req.path
         _path = req.uri._path
         if (path.encode(self._encoding) != _path) and (quote(path).encode(self._encoding) != _path):
-            self._closing.add(sock)
+            self._mark_closing(sock)
             return self.fire(redirect(req, res, [req.uri.utf8()], 301))
 
         req.body = BytesIO(parser.recv_body())
@@ -346,7 +356,7 @@ class HTTP(BaseComponent):
         modified by a :class:`~circuits.web.errors.HTTPError` instance
         or a subclass thereof.
         """
-        self._closing.add(req.sock)
+        self._mark_closing(req.sock)
         res.body = str(event)
         self.fire(response(res))
 
@@ -460,7 +470,7 @@ class HTTP(BaseComponent):
 
         code = evalue.code if isinstance(evalue, HTTPException) else None
 
-        self._closing.add(req.sock)
+        self._mark_closing(req.sock)
         self.fire(httperror(req, res, code=code, error=(etype, evalue, etraceback)))
 
     @handler('request_failure')
